@@ -393,7 +393,7 @@ pub fn generate(seed: u64, n_scripts: usize, out: &Path, only: Option<usize>) ->
         let (spec, built, cfg) = world.as_ref().unwrap();
         let mut rng = Rng::derive(seed, "pygen/script", si as u64);
         let nops = 5 + Rng::derive(seed, "pygen/nops", si as u64).below(30);
-        let script = gen_script(&mut rng, spec, built, cfg, si, seed, nops, false)?;
+        let script = gen_script(&mut rng, spec, built, cfg, si, seed, nops, si % 3 == 0)?;
         total_ops += script["ops"].as_array().map(|a| a.len()).unwrap_or(0);
         lines.push_str(&script.to_string());
         lines.push('\n');
